@@ -20,6 +20,8 @@
 (*   "impl_lazyflag"   (D13) self.lazyLoad is stored before `if use_cache: lazyLoad = True`:      *)
 (*                     use_cache=True, lazyLoad=False never loads anything                       *)
 (*   "impl_hasloc"     (D14) has_location returns True from the `invalid contig` handler          *)
+(*   "mut_ign_listed" / "mut_record_snv"  mutation controls (seeded changes C18-m1 / C18-m4): the  *)
+(*                     informative-site procedure looks at the alleles LISTED in the record       *)
 (*   "impl_cachekey"   the cache file name is <contig>[_<samples>].tsv.gz: ignore_conversions is  *)
 (*                     not part of it, a run with another setting reads a foreign table          *)
 EXTENDS AlleleRules, TLC, Json
@@ -35,9 +37,8 @@ GTMenu == IF GTSet = "tiny" THEN { <<"C", "C">>, <<"T", "T">> }
           ELSE IF GTSet = "small" THEN { <<"C", "C">>, <<"T", "T">>, <<".", ".">> }
           ELSE { <<"C", "C">>, <<"T", "T">>, <<".", ".">>, <<"C", "T">>, <<"T", "GT">>, <<"GT">> }
 NoSite == [ref |-> "-", alts |-> <<>>, gt |-> [s \in Samples |-> <<>>]]
-HasGT(g) == \E s \in Samples : "GT" \in SeqSet(g[s])
-SiteMenu == { [ref |-> "C", alts |-> IF HasGT(g) THEN <<"T", "GT", "G">> ELSE <<"T", "G">>, gt |-> g] : g \in [Samples -> GTMenu] }
-            \cup {NoSite}
+(* every record lists a multi-base ALT (GT) and a second SNV ALT (G) that may be carried by nobody *)
+SiteMenu == { [ref |-> "C", alts |-> <<"T", "GT", "G">>, gt |-> g] : g \in [Samples -> GTMenu] } \cup {NoSite}
 SelAll == [explicit |-> FALSE, s |-> {}]
 SelOne == [explicit |-> TRUE, s |-> {CHOOSE s \in Samples : TRUE}]
 SelBoth == [explicit |-> TRUE, s |-> Samples]
@@ -61,8 +62,11 @@ vars == <<vcf, run, cfg, loaded, cache, pend, badTruth, badEq, nruns, nops, hist
 
 ---------------------------------------------------------------------------------------------------
 (* tables: sets of <<pos, base, samples>> *)
+Store(site, cf) == CASE Variant = "mut_ign_listed" -> StoreCodeIgnListed(site, cf.sel, cf.ign)
+                     [] Variant = "mut_record_snv" -> StoreCodeRecordSNV(site, cf.sel, cf.ign)
+                     [] OTHER -> StoreCode(site, cf.sel, cf.ign)
 TableOf(c, cf) == { <<p, b, Carriers(vcf[c][p], cf.sel, b)>> :
-                        p \in { q \in Positions : vcf[c][q] # NoSite /\ StoreCode(vcf[c][q], cf.sel, cf.ign) },
+                        p \in { q \in Positions : vcf[c][q] # NoSite /\ Store(vcf[c][q], cf) },
                         b \in Bases } \ { <<p, b, {}>> : p \in Positions, b \in Bases }
 LookupT(T, p, b) == IF \E t \in T : t[1] = p /\ t[2] = b THEN (CHOOSE t \in T : t[1] = p /\ t[2] = b)[3] ELSE {}
 HasT(T, p) == \E t \in T : t[1] = p
@@ -184,8 +188,8 @@ Inv_C18_RuleAgrees ==
     \A c \in Contigs, p \in Positions, cf \in Configs :
         vcf[c][p] # NoSite =>
             LET cl == Class(vcf[c][p], cf.sel, cf.ign) IN
-            /\ cl = "store" => StoreCode(vcf[c][p], cf.sel, cf.ign)
-            /\ cl = "drop" => ~StoreCode(vcf[c][p], cf.sel, cf.ign)
+            /\ cl = "store" => Store(vcf[c][p], cf)
+            /\ cl = "drop" => ~Store(vcf[c][p], cf)
 
 (* lazy instances hold at most one contig *)
 Inv_C18_OneContig == run.on /\ run.selfLazy => Cardinality({c \in AllContigs : loaded[c].in}) <= 1
